@@ -1253,14 +1253,15 @@ static std::string Observe(const Case& c, int phase)
 	return RunText(PrintProgram(c.ast, false), false);
 }
 
-struct ShMem { volatile long index; volatile int phase; char partial[3][1 << 16]; };
+struct ShMem { volatile long index; volatile long done; volatile int phase; char partial[3][1 << 16]; };
 
 /* runs cases[from..) in a forked child; returns the index of the case that killed the child, or -1 */
 template<typename GetCase>
 static void RunAll(long total, GetCase getCase)
 {
 	ShMem *sh = (ShMem *)mmap(nullptr, sizeof(ShMem), PROT_READ | PROT_WRITE, MAP_SHARED | MAP_ANONYMOUS, -1, 0);
-	long next = 0, confirm = -1;   /* a crash is reported only if the case also kills a FRESH child (earlier hostile programs may have corrupted the heap) */
+	sh->done = -1;
+	long next = 0, confirm = -1, lastRestart = -1;   /* a crash is reported only if the case also kills a FRESH child (earlier hostile programs may have corrupted the heap) */
 	while (next < total) {
 		fflush(g_Out);
 		pid_t pid = fork();
@@ -1292,6 +1293,7 @@ static void RunAll(long total, GetCase getCase)
 					fprintf(g_Out, "min=%s full=%s again=%s", r[0].c_str(), r[1].c_str(), r[2].c_str());
 				}
 				fputs("\n", g_Out); fflush(g_Out);
+				sh->done = i;
 			}
 			fflush(g_Out);
 			_exit(0);
@@ -1302,6 +1304,14 @@ static void RunAll(long total, GetCase getCase)
 		/* the child died while evaluating case sh->index: complete its line */
 		long i = sh->index;
 		int sig = WIFSIGNALED(status) ? WTERMSIG(status) : 0;
+		if (sh->done == i) {
+			/* the line of case i is complete: the child died between two cases (heap damaged by an earlier hostile program, or
+			 * while generating the next case) — go on with the next case; never spin on the same restart point */
+			next = (lastRestart == i + 1) ? i + 2 : i + 1;
+			lastRestart = i + 1;
+			confirm = -1;
+			continue;
+		}
 		if (i != confirm && sig != SIGALRM) { confirm = i; next = i; continue; }
 		confirm = -1;
 		std::string what = sig == SIGALRM ? "timeout" : "crash:sig=" + std::to_string(sig);
